@@ -179,9 +179,10 @@ def c15(rng, tier):
     a = A(); import algopy.exact_interpolation as ex
     mex = exact_module()
     bound = 6 if tier == 'quick' else 9
-    pairs = [(N, d) for N in range(1, 6) for d in range(1, 6) if N + d <= bound and (N, d) != (1, 1) or (N, d) == (1, 1)]
+    pairs = [(N, d) for N in range(1, 6) for d in range(1, 6) if N + d <= bound]
+    # the quick tier also takes the smallest pairs with three non-zero entries in a row index and an entry >= 2 occurring twice
+    if tier == 'quick': pairs += [(3, 4), (2, 5), (3, 5), (4, 4)]
     for (N, d) in pairs:
-        if N + d > bound: continue
         case = {'N': N, 'd': d}
         mi = ex.generate_multi_indices(N, d)
         want = list(compositions(N, d))
@@ -305,6 +306,18 @@ def c17(rng, tier):
                     if not numpy.array_equal(w2.data, xs): f = 'as_utpm(list of rows) != original polynomial'
                 yield case, f
             except Exception as e: yield case, 'raises %s: %s' % (type(e).__name__, str(e)[:100])
+            # containers mixing polynomials with plain numbers: a number is the constant polynomial (c, 0, ..., 0)
+            case2 = {'conv': 'as_utpm[mixed with plain numbers]', 'shape': list(shp), 'D': D, 'P': P}
+            try:
+                cont = numpy.empty(shp, dtype=object); want = xs.copy()
+                for k_, idx in enumerate(numpy.ndindex(*shp)):
+                    if k_ % 2 == 1:
+                        c_ = [2.5, 3, numpy.float64(-1.25)][k_ % 3]; cont[idx] = c_; want[(slice(None), slice(None)) + idx] = 0.; want[(0, slice(None)) + idx] = c_
+                    else: cont[idx] = u[idx]
+                w = U.as_utpm(cont)
+                f = None if w.data.shape == want.shape and numpy.array_equal(w.data, want) else 'as_utpm of a container mixing polynomials and plain numbers: element-wise read-back differs (a number must become the constant polynomial)'
+                yield case2, f
+            except Exception as e: yield case2, 'raises %s: %s' % (type(e).__name__, str(e)[:100])
     # ---- shift by s then -s on the retained part
     for D in (1, 2, 4):
         x = U(numpy.array([native.rnd(rng) for _ in range(D * 2 * 2)]).reshape(D, 2, 2))
